@@ -177,8 +177,10 @@ func VH_case(a []string) {
 	if werr == nil && err == nil && len(l) == 1 && len(want) == 1 {
 		vAssert(vStrEq(l[0], want[0]), "extract-canonical")
 		if !strings.HasSuffix(id, "+") {
-			// the id part is byte-identical to the list entry
+			// the id part is byte-identical to the list entry, and nothing but '+' / WITH follows it
 			vAssert(strings.HasPrefix(l[0], id), "canonical-spelling")
+			rest := l[0][len(id):]
+			vAssert(rest == "" || rest == "+" || strings.HasPrefix(rest, " WITH ") || strings.HasPrefix(rest, "+ WITH "), "canonical-spelling")
 		}
 	}
 	r, err2 := Satisfies(text, []string{canon})
@@ -214,6 +216,11 @@ func VH_listed(a []string) {
 		vAssert(vValid(x), "id-accepted")
 		l, err := ExtractLicenses(x)
 		vAssert(err == nil && len(l) == 1, "id-accepted")
+		if err == nil && len(l) == 1 && a[0] == "active" {
+			// the term is reported under the id's own list spelling ('+' appended for the
+			// listed -or-later forms, which denote "or later")
+			vAssert(vOr(vStrEq(l[0], x), vAnd(strings.HasSuffix(x, "-or-later"), vStrEq(l[0], x+"+"))), "id-reported-as-listed")
+		}
 		r, err2 := Satisfies(x, []string{x})
 		vAssert(vAnd(err2 == nil, r), "id-accepted")
 		return
